@@ -72,6 +72,10 @@ let sh_opt f = function None -> "N" | Some v -> "S" ^ f v
 let sh_list f l = "[" ^ join "," f l ^ "]"
 let sh_pair f g (a, b) = "(" ^ f a ^ "," ^ g b ^ ")"
 let sh_triple f g k ((a, b), c) = "(" ^ f a ^ "," ^ g b ^ "," ^ k c ^ ")"
+let sh_tup1 f a = "(" ^ f a ^ ",)"
+let sh_tup4 f1 f2 f3 f4 (((a, b), c), d) = "(" ^ f1 a ^ "," ^ f2 b ^ "," ^ f3 c ^ "," ^ f4 d ^ ")"
+let sh_tup5 f1 f2 f3 f4 f5 ((((a, b), c), d), e) = "(" ^ f1 a ^ "," ^ f2 b ^ "," ^ f3 c ^ "," ^ f4 d ^ "," ^ f5 e ^ ")"
+let sh_tup6 f1 f2 f3 f4 f5 f6 (((((a, b), c), d), e), g) = "(" ^ f1 a ^ "," ^ f2 b ^ "," ^ f3 c ^ "," ^ f4 d ^ "," ^ f5 e ^ "," ^ f6 g ^ ")"
 let sh_map f g m = "{" ^ join "," (fun (k, v) -> f k ^ ":" ^ g v) m ^ "}"
 let sh_set f m = "{" ^ join "," f m ^ "}"
 
@@ -155,6 +159,12 @@ let dec ty (bs : coq_Z list) : string =
   | "string" -> res hex_of_bytes_fast (read_string utf8_valid bs)
   | "arr4_u16" -> res (sh_list h) (read_arr read_u16 z4 bs)
   | "tup" -> res (sh_triple h h sh_bool) (read_triple read_u8 read_u32 read_bool bs)
+  | "unit" -> res (fun () -> "()") (read_unit bs)
+  | "tup1" -> res (sh_tup1 h) (read_tup1 read_u16 bs)
+  | "tup2" -> res (sh_pair h h) (read_pair read_u16 read_u8 bs)
+  | "tup4" -> res (sh_tup4 h h h h) (read_tup4 read_u8 read_u16 read_u32 read_u64 bs)
+  | "tup5" -> res (sh_tup5 h h h h h) (read_tup5 read_u8 read_u16 read_u32 read_u64 read_u128 bs)
+  | "tup6" -> res (sh_tup6 h h h h h h) (read_tup6 read_u8 read_u16 read_u32 read_u64 read_u128 read_usize bs)
   | "map_u32_bytes" -> res (sh_map h (sh_list h)) (read_map zltb read_u32 r_vec_u8 bs)
   | "set_u64" -> res (sh_set h) (read_set zltb read_u64 bs)
   | "f64" -> res h (read_f64 bs)
@@ -245,6 +255,17 @@ let enc ty (args : string list) : string =
     | "string" -> hx (write_string (bl (next c)))
     | "arr4_u16" -> hx (write_arr write_u16 (list_of_commas z (next c)))
     | "tup" -> let a = z (next c) in let b = z (next c) in let t = next c = "1" in hx (write_triple write_u8 write_u32 write_bool ((a, b), t))
+    | "unit" -> hx (write_unit ())
+    | "tup1" -> hx (write_tup1 write_u16 (z (next c)))
+    | "tup2" -> let a = z (next c) in let b = z (next c) in hx (write_pair write_u16 write_u8 (a, b))
+    | "tup4" -> let a = z (next c) in let b = z (next c) in let d = z (next c) in let e = z (next c) in
+      hx (write_tup4 write_u8 write_u16 write_u32 write_u64 (((a, b), d), e))
+    | "tup5" -> let a = z (next c) in let b = z (next c) in let d = z (next c) in let e = z (next c) in let f = z (next c) in
+      hx (write_tup5 write_u8 write_u16 write_u32 write_u64 write_u128 ((((a, b), d), e), f))
+    | "tup6" -> let a = z (next c) in let b = z (next c) in let d = z (next c) in let e = z (next c) in let f = z (next c) in let g = z (next c) in
+      hx (write_tup6 write_u8 write_u16 write_u32 write_u64 write_u128 write_usize (((((a, b), d), e), f), g))
+    | "slice_u16" -> hx (write_slice write_u16 (list_of_commas z (next c)))
+    | "str" -> hx (write_str (bl (next c)))
     | "map_u32_bytes" ->
       let kv s = (match Stdlib.String.split_on_char ':' s with [ k; v ] -> (z k, bl v) | _ -> failwith "kv") in
       hx (write_map write_u32 (write_vec write_u8) (Stdlib.List.map kv args))
